@@ -8,7 +8,8 @@ import ast
 
 from ..dataflow import defs
 from ..model import call_name, dotted, own_nodes, unparse
-from ..pathcond import path_info, truth_table
+from ..model import returns_text
+from ..pathcond import assigned_alternatives, path_info, truth_table
 from ..paths import enumerate_paths, path_calls
 
 PROP = 'C18'
@@ -151,8 +152,7 @@ def run(pm, ctx):
 
     # ---------------- R2
     om = pm.func(B + '.OutputManifest.outputs')
-    ctx.check('C18-R2', len(om.node.body) == 1 and unparse(om.node.body[0]) ==
-              'return sorted(self._outputs)', 'OutputManifest.outputs is sorted', om.loc,
+    ctx.check('C18-R2', returns_text(om.node) == 'sorted(self._outputs)', 'OutputManifest.outputs is sorted', om.loc,
               msg='the manifest listing is no longer sorted', key='C18-R2|%s' % om.qualname)
     ao = pm.func('stone.cli._actual_outputs')
     rets = [r for r in own_nodes(ao.node) if isinstance(r, ast.Return)]
@@ -187,7 +187,7 @@ def run(pm, ctx):
               msg='_record_output_path changed: %s' % rets, key='C18-R2|%s' % rec.qualname)
     main = pm.func('stone.cli.main')
     dm = defs(main.node)
-    am = [unparse(v) for v in dm.all_values('actual_manifest')]
+    am = [unparse(leaf) for leaf, _st in assigned_alternatives(main.node, 'actual_manifest')]
     pr = [c for c in own_nodes(main.node) if isinstance(c, ast.Call) and call_name(c) == 'print'
           and c.args and 'json.dumps(actual_manifest' in unparse(c.args[0])]
     ctx.check('C18-R2', sorted(am) == sorted(['c.output_manifest()', '_actual_outputs(args.output)',
@@ -385,9 +385,13 @@ def _check_sink(pm, ctx, f, call, d, kind):
     # content sink: validated and recorded on every path
     if d.startswith('shutil.copy'):
         # validated expression must be the effective destination
-        vexpr = [unparse(v) for v in dd.all_values('output_path')]
-        model = 'os.path.join(dst, os.path.basename(src)) if os.path.isdir(dst) else dst'
-        ctx.check('C18-R1', vexpr == [model] and [unparse(a) for a in call.args[:2]] ==
+        pif = path_info(f.node)
+        vexpr = sorted((unparse(leaf), tuple((unparse(e), p) for e, p in pif.at(leaf)
+                                             if 'isdir' in unparse(e)))
+                       for leaf, _st in assigned_alternatives(f.node, 'output_path'))
+        model = [('dst', (('os.path.isdir(dst)', False),)),
+                 ('os.path.join(dst, os.path.basename(src))', (('os.path.isdir(dst)', True),))]
+        ctx.check('C18-R1', vexpr == model and [unparse(a) for a in call.args[:2]] ==
                   ['src', 'dst'], '%s: validated path = effective destination of shutil.copy'
                   % f.short, where,
                   msg='copy_to_path validates %s but copies to %s' % (
